@@ -195,7 +195,9 @@ func (c *Chain) names(set map[string]bool, order *[]string) {
 			add(o.Name)
 		case "app":
 			add(o.Name)
-			add(o.Arg)
+			if !strings.Contains(o.Arg, ".") {
+				add(o.Arg)
+			}
 		case "paren":
 			o.Chain.names(set, order)
 		}
@@ -238,6 +240,11 @@ func goTree(e ast.Expr) (string, error) {
 		return goTree(x.X)
 	case *ast.Ident:
 		return x.Name, nil
+	case *ast.SelectorExpr:
+		if id, ok := x.X.(*ast.Ident); ok {
+			return id.Name + "." + x.Sel.Name, nil
+		}
+		return "", fmt.Errorf("unsupported selector")
 	case *ast.BinaryExpr:
 		op, ok := goOp[x.Op]
 		if !ok {
@@ -379,7 +386,7 @@ func runFC(e *vt.Env, fc, src string) (fcOut, error) {
 	if err := os.WriteFile(fo, []byte("package main\n\n"+src), 0o644); err != nil {
 		return fcOut{}, err
 	}
-	r := pipeline.RunFC(fc, dir, 60*time.Second, "ops.fo")
+	r := pipeline.RunFC(fc, dir, 60*time.Second, filepath.Join(e.Repo, "pkg", "pkg_all.foi"), "ops.fo")
 	if r.TimedOut {
 		return fcOut{}, fmt.Errorf("fc timed out")
 	}
@@ -590,6 +597,10 @@ func genChain(t *rapid.T, depth int, nameCtr *int, allowBreaks bool) *Chain {
 			o = Operand{Kind: "leaf", Name: fresh("v")}
 		case k <= 6:
 			o = Operand{Kind: "app", Name: fresh("g"), Arg: fresh("v")}
+			if rapid.IntRange(0, 3).Draw(t, "qualifiedArg") == 0 {
+				// a package-qualified function name as the argument: `g strings.Length < v`
+				o.Arg = rapid.SampledFrom([]string{"strings.Length", "slice.Length", "strings.IsEmpty"}).Draw(t, "qname")
+			}
 		default:
 			if depth < 2 {
 				o = Operand{Kind: "paren", Chain: genChain(t, depth+1, nameCtr, false), Extra: rapid.SampledFrom([]int{0, 0, 0, 1}).Draw(t, "extraParens")}
@@ -631,6 +642,9 @@ func features(c *Chain, f map[string]bool) {
 		switch o.Kind {
 		case "app":
 			f["application operand"] = true
+			if strings.Contains(o.Arg, ".") {
+				f["package-qualified name before an operator"] = true
+			}
 		case "paren":
 			f["parenthesised sub-chain"] = true
 			if o.Extra > 0 {
